@@ -280,6 +280,17 @@ func (sc *specCtx) ident(name string, subs map[string]SpecExpr) Value {
 		return scalar(types.Typ[types.UntypedNil], IntLit(0))
 	}
 	obj, ok := sc.lookupLocal(name)
+	if ok && obj.Parent() != nil && (obj.Parent() == types.Universe || (obj.Pkg() != nil && obj.Parent() == obj.Pkg().Scope())) {
+		// resolved to a package-level or predeclared object: if the baseline knows this name as a
+		// variable of the function that has since been renamed, the contract means that variable
+		if r := sc.u.eng.renames(sc.u.fn); r != nil {
+			if nw, has := r.old2new[name]; has {
+				if o2, ok2 := sc.lookupLocal(nw); ok2 {
+					obj = o2
+				}
+			}
+		}
+	}
 	if !ok {
 		// renamed since the baseline?
 		if r := sc.u.eng.renames(sc.u.fn); r != nil {
